@@ -7,6 +7,26 @@ sys.path.insert(0, os.path.join(ROOT, 'tools'))
 import props as P
 ids = [json.loads(l)['id'] for l in open(os.path.join(ROOT, 'properties.jsonl'))]
 hooks = json.load(open(os.path.join(ROOT, 'tools', 'hooks.json')))
+import re
+def closure(mods):
+    seen = set(); todo = list(mods)
+    while todo:
+        m = todo.pop()
+        if m in seen or not m.startswith('IpcModel'):
+            continue
+        seen.add(m)
+        f = os.path.join(ROOT, 'lean', m.replace('.', '/') + '.lean')
+        if os.path.exists(f):
+            todo += re.findall(r'^import (\S+)', open(f).read(), re.M)
+    return seen
+def technique(c):
+    if 'technique' in c:
+        return c['technique']
+    if 'IpcModel.Gen' in closure(c['modules']):
+        return ('Lean 4 theorems over an executable model whose constants, size arithmetic and shape facts are regenerated from /repo by the translator on every run '
+                '(proof obligations re-checked against them), plus trace correspondence (harness vs compiled Lean driver) and an implementation oracle')
+    return ('Lean 4 theorems over a hand-written executable model tied to /repo on every run by trace correspondence (real crate under the harness vs the compiled '
+            'Lean driver on the same inputs), plus an implementation oracle')
 checks = []
 for pid in ids:
     if pid in P.PROPS and P.PROPS[pid].get('claimed', True):
@@ -20,7 +40,7 @@ for pid in ids:
             'engine': 'lean4-model+harness',
             'level_claimed': {'category': 'proof', 'text': c['level_text'], 'design_ref': 'DESIGN.md section 5, ' + pid},
             'level_note': c['level_note'],
-            'technique': c.get('technique', 'Lean 4 theorems over a model regenerated/tied to the code (translator + trace correspondence), implementation oracle'),
+            'technique': technique(c),
         })
 na = [{'property_id': pid, 'reason': P.NOT_CLAIMED.get(pid, 'check not built yet (work in progress; DESIGN.md section 11)')}
       for pid in ids if not (pid in P.PROPS and P.PROPS[pid].get('claimed', True))]
